@@ -1818,13 +1818,16 @@ def gen_lean():
     copied = []
     for mname in ("__copy_fill__", "_copy_annotations"):
         fn = method("_AtomArrayBase", mname)
+        if len(fn.args.args) != 2:
+            raise ValueError(f"{mname}: expected the signature (self, clone)")
+        clone_name = fn.args.args[1].arg          # whatever the second parameter is called
         for n in ast.walk(fn):
             if isinstance(n, ast.Assign):
                 for t in n.targets:
                     base = t
                     while isinstance(base, ast.Subscript):
                         base = base.value
-                    if isinstance(base, ast.Attribute) and isinstance(base.value, ast.Name) and base.value.id == "clone":
+                    if isinstance(base, ast.Attribute) and isinstance(base.value, ast.Name) and base.value.id == clone_name:
                         # the right-hand side must be a fresh object: np.copy(...) or x.copy()
                         v = n.value
                         fresh = isinstance(v, ast.Call) and isinstance(v.func, ast.Attribute) and v.func.attr == "copy"
@@ -1843,7 +1846,13 @@ def gen_lean():
     # what AtomArrayStack.__delitem__ and _del_element re-assign
     del_stack = self_attrs_assigned(method("AtomArrayStack", "__delitem__"))
     del_elem = self_attrs_assigned(method("_AtomArrayBase", "_del_element"))
-    sub_new = self_attrs_assigned(method("_AtomArrayBase", "_subarray"), "new_object")
+    sub_fn = method("_AtomArrayBase", "_subarray")
+    sub_objs = {t.id for n in ast.walk(sub_fn) if isinstance(n, ast.Assign) and isinstance(n.value, ast.Call)
+                and isinstance(n.value.func, ast.Name) and n.value.func.id in ("AtomArray", "AtomArrayStack")
+                for t in n.targets if isinstance(t, ast.Name)}
+    if len(sub_objs) != 1:
+        raise ValueError("_subarray: expected one local holding the new AtomArray/AtomArrayStack")
+    sub_new = self_attrs_assigned(sub_fn, sub_objs.pop())
     for f in ("concatenate", "stack", "repeat", "from_template", "array"):
         if f not in funcs:
             raise ValueError(f"function {f} not found in atoms.py")
